@@ -253,6 +253,7 @@ def type_entries(td):
     return out
 
 
+ALLOW_NON_EXHAUSTIVE = True   # C19 builds its values in another crate than the definitions: switched off there
 FOREIGN_ATTRS = ["/// documented", "#[allow(dead_code)]", "#[doc = \"d\"]", "#[allow(unused, clippy::all)]",
                  "/** block doc */", "#[cfg(all())]"]
 
@@ -294,7 +295,7 @@ def render(td, rng=None, canonical=False, spell=None, vis="pub ", strip=False, e
             return t
         lines = t.splitlines(True)
         pool = list(FOREIGN_ATTRS)
-        if (ind == "" and td.kind != "union") or (ind == "    " and td.kind == "enum"):
+        if ALLOW_NON_EXHAUSTIVE and ((ind == "" and td.kind != "union") or (ind == "    " and td.kind == "enum")):
             # legal on structs, enums and variants only; without effect inside the defining crate
             pool += ["#[non_exhaustive]", "#[non_exhaustive]"]
         for _ in range(rng.choice([1, 1, 2])):
